@@ -1051,6 +1051,7 @@ package gogen
 
 //@ func DefaultConv
 //@ prop C05 C03
+//@ readonly
 //@ requires pkg != nil && t != nil && typeis(t, *types.Basic)
 //@ ensures result == types.Default(t)
 
@@ -1460,7 +1461,7 @@ package gogen
 // emit nothing; it never overwrites a slot of an operand list, and of the operands that exist it rewrites only arg
 //@ func matchType
 //@ trusted
-//@ assigns arg.Val, arg.Type, arg.CVal, arg.Src, heapexcept([]*internal.Elem; *Package; []ast.Expr; field:ast.AssignStmt.Lhs; field:ast.AssignStmt.Rhs; field:ast.AssignStmt.Tok; field:CodeBuilder.pkg; field:refType.typ; field:internal.Elem.Val; field:internal.Elem.Type; field:internal.Elem.CVal; field:internal.Elem.Src; []ast.Stmt; field:codeBlockCtx.stmts; field:codeBlockCtx.label; []types.Type; field:ast.RangeStmt.Key; field:ast.RangeStmt.Value; field:ast.RangeStmt.X; field:ast.RangeStmt.Tok)
+//@ assigns arg.Val, arg.Type, arg.CVal, arg.Src, heapexcept([]*internal.Elem; *Package; []ast.Expr; field:ast.AssignStmt.Lhs; field:ast.AssignStmt.Rhs; field:ast.AssignStmt.Tok; field:CodeBuilder.pkg; field:refType.typ; field:internal.Elem.Val; field:internal.Elem.Type; field:internal.Elem.CVal; field:internal.Elem.Src; []ast.Stmt; field:codeBlockCtx.stmts; field:codeBlockCtx.label; []types.Type; field:ast.RangeStmt.Key; field:ast.RangeStmt.Value; field:ast.RangeStmt.X; field:ast.RangeStmt.Tok; map:map[string]null; []string; field:ValueDecl.names)
 //@ defines imp(result == nil, Matched(arg, param))
 //@ tensures len(pkg.cb.stk.data) == old(len(pkg.cb.stk.data)) && forall(i, 0, len(pkg.cb.stk.data), pkg.cb.stk.data[i] == old(pkg.cb.stk.data[i]))
 
@@ -1886,3 +1887,33 @@ package gogen
 //@ ensures imp(old(ImportRefUnused(node)), !in(p.pkg.names, old(ImportRefIdent(node)).Name))
 //@ ensures imp(old(ImportRefUnused(node)), in(p.pkg.importNames, mkstruct(importName, old(ImportRefIdent(node)).Name, p.file.fname)))
 //@ ensures imp(typeis(node, *ast.SelectorExpr) && typeis(old(node.(*ast.SelectorExpr).X), *ast.Ident) && old(node.(*ast.SelectorExpr).X.(*ast.Ident).Obj) != nil && typeis(old(node.(*ast.SelectorExpr).X.(*ast.Ident).Obj.Data), importUsed) && old(node.(*ast.SelectorExpr).X.(*ast.Ident).Obj.Data.(importUsed)), unchanged("H!ast.Ident!Name") && unchanged("H!ast.Object!Data") && unchanged("H!ast.Object!Name"))
+
+// ---------------------------------------------------------------------------
+// C16 — inline closure call: closing it restores the whole function context of the enclosing function
+
+//@ func (*CodeBuilder).pushVal
+//@ trusted
+//@ assigns heapexcept(field:funcBodyCtx.fn; field:funcBodyCtx.labels; field:funcBodyCtx.panicCalls; field:codeBlockCtx.codeBlock; field:codeBlockCtx.scope; field:codeBlockCtx.base; field:Func.decl)
+//@ func (*CodeBuilder).needEndingLabel
+//@ trusted
+//@ readonly
+//@ func (*CodeBuilder).Label
+//@ trusted
+//@ assigns heapexcept(field:funcBodyCtx.fn; field:funcBodyCtx.labels; field:funcBodyCtx.panicCalls; field:codeBlockCtx.codeBlock; field:codeBlockCtx.scope; field:codeBlockCtx.base; field:Func.old; field:internal.Stack.data; []*internal.Elem)
+//@ func (*Func).getInlineCallArity
+//@ trusted
+//@ readonly
+
+// after the End of an inline closure the builder is back in the enclosing function: current function, label table,
+// panic-call set, block owner, scope and stack base are the ones saved when the inline closure started
+//@ func (*Func).inlineClosureEnd
+//@ prop C16
+//@ partial
+//@ requires cb != nil && cb.pkg != nil && addr(cb.current) != addr(p.old)
+//@ loop 0 invariant cb.current.fn == old(p.old.fn) && cb.current.labels == old(p.old.labels) && cb.current.panicCalls == old(p.old.panicCalls) && CtxIs(cb, old(p.old.codeBlockCtx))
+//@ loop 1 invariant cb.current.fn == old(p.old.fn) && cb.current.labels == old(p.old.labels) && cb.current.panicCalls == old(p.old.panicCalls) && CtxIs(cb, old(p.old.codeBlockCtx))
+//@ ensures cb.current.fn == old(p.old.fn) && cb.current.labels == old(p.old.labels) && cb.current.panicCalls == old(p.old.panicCalls) && CtxIs(cb, old(p.old.codeBlockCtx))
+
+//@ func (setTyper).setType
+//@ prop C09
+//@ readonly
